@@ -688,11 +688,12 @@ namespace Givaro {
          if (tr <0) {
                  // -a = b [p]
                  // a = p-b [p]
-             tr = -tr;
-             if (tr >= (int32_t)_q )
-                 tr =(int32_t)( (UT)tr % _q ) ;
-             if (tr)
-                 return r = (Rep) _pol2log[(UT) _q - (UT)tr ];
+             // magnitude in the unsigned type: -tr overflows for INT32_MIN (and then indexed far outside the table)
+             uint32_t utr = uint32_t(0) - (uint32_t)tr;
+             if (utr >= _q )
+                 utr = (uint32_t)( utr % _q ) ;
+             if (utr)
+                 return r = (Rep) _pol2log[(UT) _q - (UT)utr ];
              else
                  return r = zero;
          }
@@ -709,11 +710,12 @@ namespace Givaro {
          if (tr <0) {
                  // -a = b [p]
                  // a = p-b [p]
-             tr = -tr;
-             if (tr >= (int64_t)_q )
-				tr = tr % (int64_t)_q ;
-             if (tr)
-                 return r = (typename GFqDom<Any>::Rep) _pol2log[ (size_t)_q - (size_t)tr ];
+             // magnitude in the unsigned type: -tr overflows for INT64_MIN (and then indexed far outside the table)
+             uint64_t utr = uint64_t(0) - (uint64_t)tr;
+             if (utr >= (uint64_t)_q )
+				utr = utr % (uint64_t)_q ;
+             if (utr)
+                 return r = (typename GFqDom<Any>::Rep) _pol2log[ (size_t)_q - (size_t)utr ];
              else
                  return r = zero;
          } else {
